@@ -67,6 +67,15 @@ fn step(line: &str) -> Option<String> {
                 }
             }
         }
+        ["tok_int", ty, dec] => {
+            macro_rules! mk { ($t:ty) => {{ let v: $t = dec.parse::<$t>().ok()?; Token::from(v).encoded().to_string() }}; }
+            let enc = match *ty {
+                "u8" => mk!(u8), "u16" => mk!(u16), "u32" => mk!(u32), "u64" => mk!(u64), "u128" => mk!(u128), "usize" => mk!(usize),
+                "i8" => mk!(i8), "i16" => mk!(i16), "i32" => mk!(i32), "i64" => mk!(i64), "i128" => mk!(i128), "isize" => mk!(isize),
+                _ => return None,
+            };
+            format!("enc={}", hex(&enc))
+        }
         ["tok_new", s] => { let s = unhex(s)?; let t = Token::new(s.as_str()); format!("enc={} dec={}", hex(t.encoded()), hex(&t.decoded())) }
         ["from_encoded", s] => {
             let s = unhex(s)?;
